@@ -1571,6 +1571,12 @@ func (c *twoPhaseCommitter) checkAsyncCommit() bool {
 		!c.shouldWriteBinlog() {
 		totalKeySize := uint64(0)
 		for i := 0; i < c.mutations.Len(); i++ {
+			// A key that is only checked for non-existence gets no lock and is not among the secondaries, so the
+			// locks alone would say "fully prewritten" while its check is still pending or has failed: a resolver
+			// could commit the transaction before (or although) the check decides that it must fail.
+			if c.mutations.GetOp(i) == kvrpcpb.Op_CheckNotExists {
+				return false
+			}
 			totalKeySize += uint64(len(c.mutations.GetKey(i)))
 			if totalKeySize > asyncCommitCfg.TotalKeySizeLimit {
 				return false
